@@ -19,7 +19,9 @@ package main
 // router child's queue forwarder has not handed over yet can arrive later;
 // they are recorded in the window in which they arrive (the judge allows
 // that); at the end of a session the router child's queue is flushed by a
-// marker event (see sysRun), so nothing is left behind.
+// marker event (see sysRun): the harness reads until every live copy of the
+// marker has arrived (one per open subscription it matches, not only the
+// marker's own subscription), so nothing is left behind.
 //
 // Auxiliary observations, taken when the composition is quiet:
 //   - before a REQ, the database's answer to the REQ's filters (the same
@@ -315,27 +317,30 @@ func (d *sysDriver) await(sub string) bool {
 	}
 }
 
-// awaitEvent reads until an EVENT labelled sub arrives.
-func (d *sysDriver) awaitEvent(sub string) bool {
-	t := time.NewTimer(sysTimeout)
-	defer t.Stop()
-	for {
+// awaitCopies reads until need EVENT messages carrying the event id have been
+// received in d.cur (have of them were received before), or nothing has
+// arrived for sysTimeout.  It reports whether all of them came.
+func (d *sysDriver) awaitCopies(id string, have, need int) bool {
+	for have < need {
+		t := time.NewTimer(sysTimeout)
 		select {
 		case s := <-d.send:
+			t.Stop()
 			if !d.record(s) {
 				return false
 			}
-			if e, ok := s.(*mocrelay.ServerEventMsg); ok && e.SubscriptionID == sub {
-				return true
+			if e, ok := s.(*mocrelay.ServerEventMsg); ok && e.Event != nil && e.Event.ID == id {
+				have++
 			}
 		case why := <-d.dead:
+			t.Stop()
 			d.err = why
 			return false
 		case <-t.C:
-			d.err = "timeout: the flush event never came back"
 			return false
 		}
 	}
+	return true
 }
 
 // stragglers collects what still arrives until nothing has arrived for a while.
@@ -356,6 +361,70 @@ func (d *sysDriver) stragglers(quiet time.Duration) {
 			return
 		}
 	}
+}
+
+// sysFlushCopies: how many live copies of the flush event (id ff.., pubkey fe.., kind 20000,
+// created_at 1, no tags) the session is going to receive: one per subscription that is open
+// at the end (the last REQ of an id counts, a CLOSE ends it) and has a filter the flush event
+// satisfies.  Used only to know how long to keep reading at the end of a session, never to
+// judge: too large a number costs one sysTimeout, too small a number falls back to the quiet
+// period of stragglers.
+func sysFlushCopies(session []sysMsg) int {
+	id, pk := strings.Repeat("ff", 32), strings.Repeat("fe", 32)
+	has := func(xs []string, x string) bool {
+		for _, y := range xs {
+			if y == x {
+				return true
+			}
+		}
+		return false
+	}
+	matches := func(f common.JFilter) bool {
+		if f.IDs != nil && !has(*f.IDs, id) {
+			return false
+		}
+		if f.Authors != nil && !has(*f.Authors, pk) {
+			return false
+		}
+		if f.Kinds != nil {
+			ok := false
+			for _, k := range *f.Kinds {
+				ok = ok || k == 20000
+			}
+			if !ok {
+				return false
+			}
+		}
+		if f.Tags != nil && len(*f.Tags) > 0 {
+			return false // the flush event has no tags
+		}
+		if f.Since != nil && *f.Since > 1 {
+			return false
+		}
+		if f.Until != nil && *f.Until < 1 {
+			return false
+		}
+		return true
+	}
+	open := map[string][]common.JFilter{}
+	for _, m := range session {
+		switch m.K {
+		case "req":
+			open[m.Sub] = m.Fs
+		case "close":
+			delete(open, m.Sub)
+		}
+	}
+	n := 0
+	for _, fs := range open {
+		for _, f := range fs {
+			if matches(f) {
+				n++
+				break
+			}
+		}
+	}
+	return n
 }
 
 func sysRun(capacity int, msgs []sysMsg) (c sysCase) {
@@ -410,9 +479,10 @@ func sysRun(capacity int, msgs []sysMsg) (c sysCase) {
 	var want int64
 	// the session proper, then the flush of the router child's queue: a REQ that only the
 	// flush event matches, and that event (ephemeral: no store keeps it).  The queue is FIFO
-	// and the merge session keeps each child's order, so when the flush event's live copy
-	// has arrived every earlier live copy has.  The two messages are ordinary messages of
-	// the recorded session (the judge treats them like the others).
+	// and the merge session keeps each child's order, so when the flush event's live copies
+	// have arrived (all of them: subscriptions of the session may match it too, see below)
+	// every earlier live copy has.  The two messages are ordinary messages of the recorded
+	// session (the judge treats them like the others).
 	session := append([]sysMsg{}, c.Msgs...)
 	flushEv := common.JEvent{ID: strings.Repeat("ff", 32), PK: strings.Repeat("fe", 32), TS: 1, Kind: 20000,
 		Tags: [][]string{}, Content: "flush", Sig: strings.Repeat("fd", 64)}
@@ -457,16 +527,34 @@ func sysRun(capacity int, msgs []sysMsg) (c sysCase) {
 		}
 		c.Wins = append(c.Wins, w)
 	}
-	// wait for the flush event's live copy (it may already be in the last window)
+	// Wait for the live copies of the flush event.  The flush event is an ordinary event: the
+	// router child queues one copy for EVERY open subscription it matches, in the iteration
+	// order of a Go map, so the copy labelled sysFlushSub need not be the last one (a
+	// subscription {"kinds":[20000]} or {} of the session gets one too).  The queue is FIFO:
+	// when all copies of the flush event have arrived, every live copy of the session has.
+	// How many there are is only a hint for how long to read (sysFlushCopies); the judge
+	// decides from the recorded requests alone what was owed.  If fewer come within
+	// sysTimeout the observation is recorded as it is; only a missing copy for sysFlushSub
+	// itself means the protocol failed.
 	d.cur = []sysReply{}
-	flushed := false
+	have := 0
 	for _, r := range c.Wins[len(c.Wins)-1].Obs {
+		if r.K == "event" && r.E != nil && r.E.ID == flushEv.ID {
+			have++
+		}
+	}
+	d.awaitCopies(flushEv.ID, have, sysFlushCopies(session))
+	flushed := false
+	for _, r := range append(append([]sysReply{}, c.Wins[len(c.Wins)-1].Obs...), d.cur...) {
 		if r.K == "event" && r.Sub == sysFlushSub {
 			flushed = true
 		}
 	}
-	if !flushed && !d.awaitEvent(sysFlushSub) {
+	if !flushed {
 		c.Tail = d.cur
+		if d.err == "" {
+			d.err = "timeout: the flush event never came back"
+		}
 		c.Err = d.err
 		return
 	}
